@@ -205,3 +205,59 @@ Theorem C17_tree_move_value : forall (T T' : tree) s d e,
   t_move T s d = Some T' -> T !! s = Some e -> T' !! d = Some e /\ T' !! s = None.
 Proof. exact BytesOverlay.t_move_value. Qed.
 Print Assumptions C17_tree_move_value.
+
+(** Whole histories over the overlay model itself ([IH5/BytesOverlayHist.v]): operations of
+    [Overlay.v] (boundaries included) and merges ([Merge.m_merge], C05).  The node is followed
+    through accepted moves and -- where the flag says so -- copies, of the node or of a group
+    above it; the only excluded operation is deleting the node or a group above it. *)
+From MV Require Import IH5.OverlayProofs IH5.Merge IH5.BytesOverlayHist.
+
+(** On the plain tree of any overlay ([Sim R T], e.g. every [run_t ops]) ... *)
+Theorem C17_tree_history_keeps : forall hs R T (cur : path) e,
+  Sim R T -> cur <> [] -> is_node_path cur = true -> T !! cur = Some e ->
+  keeps_all_t T cur hs = true ->
+  (run_follow_t T cur hs).1 !! (run_follow_t T cur hs).2 = Some e.
+Proof. exact tree_history_keeps. Qed.
+Print Assumptions C17_tree_history_keeps.
+
+(** ... and read through the overlay, from any reachable record. *)
+Theorem C17_overlay_history_keeps : forall hs R T (cur : path) e,
+  Sim R T -> cur <> [] -> is_node_path cur = true -> vget R cur = Some e ->
+  keeps_all_m R cur hs = true ->
+  vget (run_follow_m R cur hs).1 (run_follow_m R cur hs).2 = Some e.
+Proof. exact overlay_history_keeps. Qed.
+Print Assumptions C17_overlay_history_keeps.
+
+(** Embedded bytes: after any history [pre], an accepted [create_dataset] of the wrapped bytes,
+    then any history keeping the node -- the value at the node's current path is the encoding
+    of exactly those bytes (and they are not the marker bytes). *)
+Theorem C17_bytes_preserved_overlay :
+  forall (pre : list hop) (p : path) bs (hs : list (hop * bool)),
+  let R0 := run_pre pre in
+  let v := enc (wrap bs) in
+  (m_step R0 (OData p v)).2 = true ->
+  let R1 := (m_step R0 (OData p v)).1 in
+  keeps_all_m R1 p hs = true ->
+  vget (run_follow_m R1 p hs).1 (run_follow_m R1 p hs).2 = Some (TData v) /\ bs <> del_bytes.
+Proof. exact bytes_preserved_overlay. Qed.
+Print Assumptions C17_bytes_preserved_overlay.
+
+(** Non-vacuity: three containers, a copy that is followed, a move of the group above the
+    copy, a merge, a later patch, deletion of the original. *)
+Example C17_nonvacuous_overlay :
+  let f := [(false, "f"); (false, "a")]%string in
+  let g := [(false, "g"); (false, "b")]%string in
+  let v := enc (wrap (String "000"%char "x")) in
+  let R1 := (m_step (run_pre [HOp (OGroup [(false, "z")]%string); HOp OBoundary]) (OData f v)).1 in
+  let hs := [(HOp OBoundary, false); (HOp (OCopy f g), true); (HOp OBoundary, false);
+             (HOp (OMove [(false, "b")]%string [(false, "c")]%string), false); (HMerge, false);
+             (HOp OBoundary, false); (HOp (ODel [(false, "a")]%string), false);
+             (HOp (OData g v), false)] in
+  v = "v:0078"%string /\
+  (m_step (run_pre [HOp (OGroup [(false, "z")]%string); HOp OBoundary]) (OData f v)).2 = true /\
+  keeps_all_m R1 f hs = true /\
+  (run_follow_m R1 f hs).2 = [(false, "g"); (false, "c")]%string /\
+  length (run_follow_m R1 f hs).1 = 2 /\
+  vget (run_follow_m R1 f hs).1 (run_follow_m R1 f hs).2 = Some (TData "v:0078"%string) /\
+  vget (run_follow_m R1 f hs).1 f = None.
+Proof. vm_compute. repeat split. Qed.
